@@ -41,6 +41,9 @@ import hashlib
 import os
 import sys
 
+sys.path.insert(0, os.path.dirname(os.path.abspath(__file__)))
+import pynorm  # noqa: E402
+
 TRANSLATED = ["get_segment_adjacency_list", "get_graph", "get_distance", "get_all_distances_from_segment",
               "get_segments_at_distance", "get_branching_points", "get_morphology_root", "get_extremeties"]
 PINNED = ["get_ordered_segments_in_groups", "get_segment_location_info"]
@@ -57,7 +60,19 @@ METHODS = {
     "get_extremeties": ("RMap", []),
 }
 # types of local variables that start from an empty literal / constructor
-EMPTY_TYPES = {"child_lists": "Adj", "segs_frac_alongs": "RMap", "res": "RMap"}
+def empty_dict_type(fn, name):
+    """type of a local that starts as `{}`, from how it is filled (names are canonical after normalisation, so the type
+    cannot be keyed by name): `name[k].append(..)` / `name[k] = []` -> dict of lists (Adj), `name[k] = <value>` -> RMap"""
+    kinds = set()
+    for node in ast.walk(fn):
+        if isinstance(node, ast.Call) and isinstance(node.func, ast.Attribute) and node.func.attr == "append" \
+                and isinstance(node.func.value, ast.Subscript) and isinstance(node.func.value.value, ast.Name) \
+                and node.func.value.value.id == name:
+            kinds.add("Adj")
+        if isinstance(node, ast.Assign) and len(node.targets) == 1 and isinstance(node.targets[0], ast.Subscript) \
+                and isinstance(node.targets[0].value, ast.Name) and node.targets[0].value.id == name:
+            kinds.add("Adj" if isinstance(node.value, ast.List) and not node.value.elts else "RMap")
+    return kinds.pop() if len(kinds) == 1 else None
 CACHE_ATTRS = {"adjacency_list": "OptAdj", "cell_graph": "OptGraph"}
 # exception classes each fallible operation can raise
 K_GET_SEGMENT = {"ValueError"}
@@ -553,9 +568,9 @@ class Tr:
             t = st.targets[0]
             if isinstance(t, ast.Name):
                 if isinstance(st.value, ast.Dict) and not st.value.keys:
-                    if t.id not in EMPTY_TYPES:
+                    ty = empty_dict_type(self.fn, t.id)
+                    if ty is None:
                         raise Gap("empty dict of unknown type")
-                    ty = EMPTY_TYPES[t.id]
                     return pad(ind) + "let %s : %s := []\n" % (t.id, ty) + cont(env.bind(t.id, ty), ind)
 
                 def k1(v, ty, env1, ind1):
@@ -708,6 +723,9 @@ class Tr:
     # ------------------------------------------------------------------ a method
     def method(self, fn):
         name = fn.name
+        # ONE canonical surface shape (translators/pynorm.py: every rewrite preserves behaviour for all inputs)
+        fn = pynorm.normalise(fn)
+        self.fn = fn
         self.rtype, params = METHODS[name]
         a = fn.args
         have = [x.arg for x in a.posonlyargs + a.args]
@@ -772,28 +790,21 @@ def find_in_helpers(tree, targets):
     return out, problems
 
 
-def strip_doc(fn):
-    """ast.dump of a function without its doc string (comments and blank lines are not in the AST anyway)"""
-    body = list(fn.body)
-    if body and isinstance(body[0], ast.Expr) and isinstance(body[0].value, ast.Constant) and isinstance(body[0].value.value, str):
-        body = body[1:]
-    return ast.dump(ast.Module(body=[ast.FunctionDef(name=fn.name, args=fn.args, body=body, decorator_list=fn.decorator_list,
-                                                     returns=None, type_comment=None, type_params=[])], type_ignores=[]),
-                    include_attributes=False)
-
-
 def pin_hash(fn):
-    return hashlib.sha256(strip_doc(fn).encode()).hexdigest()[:24]
+    """hash of the NORMALISED AST (pynorm: doc strings, alpha-renamed locals, `not a in b`, else-after-return,
+    `.keys()` loops, ... mapped to one shape): a behaviour-preserving rewrite of these kinds keeps the pin, any other
+    change moves it"""
+    return pynorm.norm_hash(fn)
 
 
-# sha256 (first 24 hex digits) of the doc-string-free AST of the pinned methods that the hand model was written from
+# normalised-AST hashes of the pinned methods that the hand model was written from
 PINS = {
-    "get_ordered_segments_in_groups": "ef0448e201d598dc209b606a",
-    "get_segment_location_info": "03efb3811431c2aea0d4628f",
+    "get_ordered_segments_in_groups": "1a8fec43b71cfb113a55735d",
+    "get_segment_location_info": "9afc8eadd285fef07fa0491a",
 }
 # earlier shapes that are recognised (and named) but are no longer what the hand model follows
 OLD_PINS = {
-    "4880b93ef91761730ad1e120": "get_segment_location_info before fixes/C13-location-info-stops-at-root.patch "
+    "b850cb261e74d5eaee3d077f": "get_segment_location_info before fixes/C13-location-info-stops-at-root.patch "
                                 "(the walk indexes the predecessor of the morphology root: IndexError)",
 }
 
@@ -875,7 +886,7 @@ def translate_repo(repo):
                     gaps.append("%s: Cell.%s is not the text the hand model was written from (pinned AST hash %s, found %s)"
                                 % (label, key, PINS[key], hs[label]))
         val = hs.get("nml.py") or hs.get("helper_methods.py") or "missing"
-        chunks.append("/-- AST hash (doc strings aside) of the pinned `Cell.%s` -/\ndef pin_%s : String := \"%s\"\n" % (key, key, val))
+        chunks.append("/-- hash of the normalised AST of the pinned `Cell.%s` -/\ndef pin_%s : String := \"%s\"\n" % (key, key, val))
     return HEADER + "\n".join(chunks) + FOOTER, gaps
 
 
